@@ -426,17 +426,63 @@ pub fn read_stream_checked<F: Read + Seek>(pkg: &mut msi::Package<F>, name: &str
     Ok(data)
 }
 
+fn pkg_col_names(rows: &msi::Rows) -> Vec<String> {
+    rows.columns().iter().map(|c| c.name().to_string()).collect()
+}
+
 pub fn snapshot(pkg: &mut Pkg) -> String {
     let names: Vec<String> = pkg.tables().map(|t| t.name().to_string()).collect();
     let mut tabs: Vec<String> = vec![];
     for name in names {
-        let cols = cols_tok(pkg.get_table(&name).unwrap().columns());
+        let mut cols = cols_tok(pkg.get_table(&name).unwrap().columns());
+        // the accessors by name hand out what the list holds: each listed column is found under its
+        // own name (the first of that name), no other name is; the key columns are the flagged ones
+        {
+            let t = pkg.get_table(&name).unwrap();
+            let list = t.columns();
+            let mut bad: Option<String> = None;
+            for c in list.iter() {
+                let first = list.iter().find(|d| d.name() == c.name()).unwrap();
+                let same = |a: &msi::Column, b: &msi::Column| cols_tok(std::slice::from_ref(a)) == cols_tok(std::slice::from_ref(b));
+                match t.get_column(c.name()) {
+                    Some(g) if same(g, first) => {}
+                    _ => bad = Some(format!("get_column({:?}) is not the listed column", c.name())),
+                }
+                if !t.has_column(c.name()) {
+                    bad = Some(format!("has_column({:?}) is false for a listed column", c.name()));
+                }
+                for odd in [format!("{}.{}", name, c.name()), format!("{} ", c.name()), c.name().to_lowercase() + "_"] {
+                    if !list.iter().any(|d| d.name() == odd) && (t.has_column(&odd) || t.get_column(&odd).is_some()) {
+                        bad = Some(format!("has_column / get_column find {:?}, which is not listed", odd));
+                    }
+                }
+            }
+            let keys: Vec<usize> = list.iter().enumerate().filter(|(_, c)| c.is_primary_key()).map(|(i, _)| i).collect();
+            if t.primary_key_indices() != keys {
+                bad = Some(format!("primary_key_indices() = {:?}, flagged columns {:?}", t.primary_key_indices(), keys));
+            }
+            if t.name() != name {
+                bad = Some("Table::name() differs from the listed name".into());
+            }
+            if let Some(b) = bad {
+                cols = format!("{} READAPI:{}", cols, b.replace(' ', "_"));
+            }
+        }
         let rows = match pkg.select_rows(msi::Select::table(name.as_str())) {
             Ok(rows) => {
                 let n = rows.len();
                 let mut parts: Vec<String> = vec![];
+                let listed: Vec<String> = pkg_col_names(&rows);
                 for row in rows {
                     let vals: Vec<String> = (0..row.len()).map(|i| V::of_msi(&row[i]).tok()).collect();
+                    // a row indexed by a column's name gives the cell of the first column of that name
+                    for (i, cn) in listed.iter().enumerate() {
+                        let first = listed.iter().position(|d| d == cn).unwrap();
+                        if row.has_column(cn) && V::of_msi(&row[cn.as_str()]).tok() != vals[first] {
+                            cols = format!("{} READAPI:row[{:?}]_is_not_cell_{}", cols, cn, first);
+                        }
+                        let _ = i;
+                    }
                     parts.push(format!("r:{}", vals.join(",")));
                 }
                 format!("n={} {}", n, parts.join(" "))
